@@ -1542,14 +1542,18 @@ def _o_record(ex, env):
         return member(Select(self.fields['slots'], toint(idx)))
 
     def by_name(ex2, self, name, *a, **k):
-        # the governing member of open-type member `name` (positions stand for names); it is not itself an open type
+        # the governing member of open-type member `name` (positions stand for names); it is not itself an open type.
+        # It has to be read with instantiation (the default way): a governing member left at its DEFAULT has a value too
+        plain = not a and not k
+        self.fields['governorReadWithInstantiation'] = And(self.fields['governorReadWithInstantiation'], z3.BoolVal(plain))
         i = toint(name)
         return Obj('Value', {'__id__': O_GOV(i), 'isValue': O_GOVISVAL(i)}, name='governingValue')
 
     def set_pos(ex2, self, idx, value, *a, **k):
         self.fields['slots'] = z3.Store(self.fields['slots'], toint(idx), toint(value.fields['__id__']))
         return self
-    return Obj('Sequence', {'slots': O_SLOTS0}, {'getComponentByPosition': by_pos, 'getComponentByName': by_name,
+    return Obj('Sequence', {'slots': O_SLOTS0, 'governorReadWithInstantiation': z3.BoolVal(True)},
+               {'getComponentByPosition': by_pos, 'getComponentByName': by_name,
                                                  'setComponentByPosition': set_pos}, name='asn1Object')
 
 
@@ -1568,6 +1572,9 @@ def _o_decode(ex, stream, asn1Spec=None, **options):
         raise _Raise(ExcV('PyAsn1Error'))
     octets = toint(stream.fields['octets'].fields['__id__'])
     allowed = options.get('allowEoo') is True
+    if '**' in options and 'allowEoo' in options['**'].entries:
+        present, val = options['**'].entries['allowEoo']
+        allowed = present is True and val is True
     if allowed != ex.c.eoo_allowed:
         from pyvc.core import ContractError
         raise ContractError('the contract declares allowEoo=%s for the inner decode, the code passes %s' % (ex.c.eoo_allowed, allowed))
@@ -1599,7 +1606,9 @@ OPEN_TYPES_N = Contract(
              'resolved_upto': FnV(_o_inv, 'resolved_upto'), 'N': O_N, 'eooAllowedInside': O_EOO_ALLOWED},
     requires=['N >= 0', 'not eooAllowedInside'],
     calls={'decodeFun': _o_decode},
-    loops={0: Loop(index='k', invariant=['resolved_upto(asn1Object, k)', 'not value_yielded()'], havoc_fields=['asn1Object.slots'])},
+    loops={0: Loop(index='k', invariant=['resolved_upto(asn1Object, k)', 'not value_yielded()',
+                                         'asn1Object.governorReadWithInstantiation'],
+                   havoc_fields=['asn1Object.slots', 'asn1Object.governorReadWithInstantiation'])},
     exit_ensures=[
         # C18 for a record of any size: a member whose governing value resolves (caller's map first, declared map second)
         # holds the inner value decoded as the mapped type; every other member -- no open type, absent OPTIONAL, valueless or
